@@ -300,5 +300,88 @@ theorem norm_sub (base0 : Bytes) (b p : List Name) (hb : norm (base0 ++ [slash])
     · next e => subst e; simp [reduceGo]
     · simpa using reduceGo_of_plain p r.reverse (fun s hs => (hp s hs).1)
 
+/-! ### `overlaps` of cache.go: string prefixes at `/` boundaries are segment prefixes -/
+
+/-- every segment followed by `/` -/
+def joinSlash (P : List Name) : Bytes := P.flatMap (· ++ [slash])
+
+theorem join_append_slash (P : List Name) (hne : P ≠ []) : join P ++ [slash] = joinSlash P := by
+  induction P with
+  | nil => exact absurd rfl hne
+  | cons s rest ih =>
+    cases rest with
+    | nil => simp [join, joinSlash]
+    | cons s' r =>
+      have := ih (by simp)
+      simp only [join, joinSlash, List.flatMap_cons] at this ⊢
+      rw [← this]; simp
+
+theorem seg_prefix (a b x y : Bytes) (ha : NoSlash a) (hb : NoSlash b)
+    (h : a ++ slash :: x <+: b ++ slash :: y) : a = b ∧ x <+: y := by
+  induction a generalizing b with
+  | nil =>
+    cases b with
+    | nil => exact ⟨rfl, (List.cons_prefix_cons.mp h).2⟩
+    | cons c b' =>
+      have := (List.cons_prefix_cons.mp h).1
+      exact absurd (by simp [← this]) hb
+  | cons c a' ih =>
+    cases b with
+    | nil =>
+      have := (List.cons_prefix_cons.mp h).1
+      exact absurd (by simp [this]) ha
+    | cons c' b' =>
+      obtain ⟨e, h'⟩ := List.cons_prefix_cons.mp h
+      obtain ⟨e2, h2⟩ := ih b' (fun m => ha (List.mem_cons_of_mem _ m)) (fun m => hb (List.mem_cons_of_mem _ m)) h'
+      exact ⟨by rw [e, e2], h2⟩
+
+theorem joinSlash_prefix (Q P : List Name) (hQ : ∀ s ∈ Q, NoSlash s) (hP : ∀ s ∈ P, NoSlash s)
+    (h : joinSlash Q <+: joinSlash P) : Q <+: P := by
+  induction Q generalizing P with
+  | nil => exact List.nil_prefix
+  | cons q Q' ih =>
+    cases P with
+    | nil =>
+      simp only [joinSlash, List.flatMap_cons, List.flatMap_nil, List.prefix_nil] at h
+      simp at h
+    | cons p P' =>
+      simp only [joinSlash, List.flatMap_cons, List.append_assoc, List.singleton_append] at h
+      obtain ⟨e, h'⟩ := seg_prefix q p _ _ (hQ q (by simp)) (hP p (by simp)) h
+      subst e
+      exact List.cons_prefix_cons.mpr ⟨rfl, ih P' (fun s hs => hQ s (List.mem_cons_of_mem _ hs))
+        (fun s hs => hP s (List.mem_cons_of_mem _ hs)) h'⟩
+
+theorem join_ne_dotSeg (P : List Name) (hP : Reduced P) : join P ≠ dotSeg := by
+  intro e
+  cases P with
+  | nil => cases e
+  | cons s rest =>
+    cases rest with
+    | nil => exact (hP s (by simp)).1.2.1 e
+    | cons s' r =>
+      -- a joined path of two or more segments contains `/`
+      have : slash ∈ join (s :: s' :: r) := by simp [join]
+      rw [e] at this
+      simp [dotSeg, dot, slash] at this
+
+/-- two non-root reduced paths that `overlaps` accepts are prefix-related -/
+theorem overlaps_join (P Q : List Name) (hP : Reduced P) (hQ : Reduced Q) (hPn : P ≠ []) (hQn : Q ≠ [])
+    (h : overlaps (join P) (join Q) = true) : P <+: Q ∨ Q <+: P := by
+  unfold overlaps at h
+  simp only [if_neg (join_ne_dotSeg P hP), if_neg (join_ne_dotSeg Q hQ)] at h
+  have e1 : (join P).isEmpty = false := by
+    cases hj : join P with
+    | nil => exact absurd ((join_eq_nil_iff P hP).mp hj) hPn
+    | cons _ _ => rfl
+  have e2 : (join Q).isEmpty = false := by
+    cases hj : join Q with
+    | nil => exact absurd ((join_eq_nil_iff Q hQ).mp hj) hQn
+    | cons _ _ => rfl
+  simp only [e1, e2, Bool.false_or, Bool.or_eq_true, List.isPrefixOf_iff_prefix] at h
+  rw [join_append_slash P hPn, join_append_slash Q hQn] at h
+  rcases h with h | h
+  · exact Or.inr (joinSlash_prefix Q P (fun s hs => (hQ s hs).2) (fun s hs => (hP s hs).2) h)
+  · exact Or.inl (joinSlash_prefix P Q (fun s hs => (hP s hs).2) (fun s hs => (hQ s hs).2) h)
+
 end Cache
 end Goat
